@@ -36,7 +36,7 @@ func runCLI(args ...string) (code int) {
 	return
 }
 
-var policyPwPool = []string{strings.Repeat("a", 80), strings.Repeat("password", 9), strings.Repeat("qwerty", 12) + "1", "a", "password", "qwerty123", "alice2020", "whawty", "Tr0ub4dor&3", "correct horse battery staple", "zQ9#vLp2!xTe", "aaaaaaaaaaaaaaaaaaaaaaaa", "iloveyou", "J8$kd0-2mQ", "summer2024!", "x", "p@ssw0rd", "pr1nc3ss", "f00tb@ll", "P@ssw0rd1", "kX7#mP2$vL9@qR4&wT6!zN8%", "plinth ochre wombat sextant gherkin", "m.kowalczyk@srv-qx7.zt3k.example", "srv-qx7.zt3k.example"}
+var policyPwPool = []string{strings.Repeat("a", 80), strings.Repeat("password", 9), strings.Repeat("qwerty", 12) + "1", "a", "password", "qwerty123", "alice2020", "whawty", "Tr0ub4dor&3", "correct horse battery staple", "zQ9#vLp2!xTe", "aaaaaaaaaaaaaaaaaaaaaaaa", "iloveyou", "J8$kd0-2mQ", "summer2024!", "x", "p@ssw0rd", "pr1nc3ss", "f00tb@ll", "P@ssw0rd1", "kX7#mP2$vL9@qR4&wT6!zN8%", "plinth ochre wombat sextant gherkin", "m.kowalczyk@srv-qx7.zt3k.example", "srv-qx7.zt3k.example", "whawtywhawty", "whawty-2024!", "abc \t \t\t  \t \t\t\t ", " \t \t  \t\t \t  abc"}
 
 func propC17(r *Run) {
 	inAgentBubble(r, func(w *AWorld) {
@@ -248,6 +248,15 @@ func propC17(r *Run) {
 			w.settle(nil)
 			if !c.OK {
 				r.FailOther("C01", "verdict/authenticate", "stored password of %s does not authenticate: %s", u, c.Err)
+			}
+			if t := strings.TrimSpace(pw); t != pw && t != "" && !passes(u, t) {
+				// what is stored is the password that was judged, not a weaker relative of it
+				c2 := &Call{Kind: "authenticate", Via: "agent", Agent: a.idx, User: u, PW: t}
+				w.addClient([]*Call{c2})
+				w.settle(nil)
+				if c2.OK {
+					r.Fail("policy/failing-password-stored/trimmed", "policy %q: %s was accepted for %s, but what is stored also verifies %s, which fails the policy", cond, simrt.Q(pw), u, simrt.Q(t))
+				}
 			}
 			if _, after, _ := w.fileOf(cfg.BaseDir, u); after != before && !passes(u, pw) {
 				r.Fail("policy/failing-password-stored/upgrade", "policy %q: a login of %s rewrote the record (hash upgrade) with password %s, which fails the policy", cond, u, simrt.Q(pw))
